@@ -64,4 +64,52 @@ def pageSize (sz : Nat) : Prop := sz = 4096 ∨ sz = 2097152 ∨ sz = 1073741824
 
 instance (sz : Nat) : Decidable (pageSize sz) := by unfold pageSize; exact inferInstance
 
+/-! ### Page-table index fields of a virtual address (4-level, 9-9-9-9-12 layout) -/
+
+/-- Index into the level-`k` table (`k = 1..4`): bit field `12+9(k-1) .. 12+9k-1`. -/
+def idxSpec (k a : Nat) : Nat := a / 2^(12 + 9 * (k - 1)) % 512
+
+/-- Page offset: bits 0..11. -/
+def offSpec (a : Nat) : Nat := a % 4096
+
+/-- The 48-bit number with the given index fields (page offset 0). -/
+def ofIndices (i4 i3 i2 i1 : Nat) : Nat := i4 * 2^39 + i3 * 2^30 + i2 * 2^21 + i1 * 2^12
+
+/-- Bytes of address space covered by one entry of a level-`l` table. -/
+def entrySpan (l : Nat) : Nat := 4096 * 512^(l - 1)
+
+/-! ### Alignment -/
+
+/-- `r` is the greatest multiple of `al` that is not above `a`. -/
+def GreatestMultipleLE (al a r : Nat) : Prop := al ∣ r ∧ r ≤ a ∧ ∀ m, al ∣ m → m ≤ a → m ≤ r
+
+/-- `r` is the least multiple of `al` that is not below `a`. -/
+def LeastMultipleGE (al a r : Nat) : Prop := al ∣ r ∧ a ≤ r ∧ ∀ m, al ∣ m → a ≤ m → r ≤ m
+
+/-- The same among canonical addresses only. -/
+def GreatestCanonMultipleLE (al a r : Nat) : Prop :=
+  canon r ∧ al ∣ r ∧ r ≤ a ∧ ∀ m, canon m → al ∣ m → m ≤ a → m ≤ r
+
+def LeastCanonMultipleGE (al a r : Nat) : Prop :=
+  canon r ∧ al ∣ r ∧ a ≤ r ∧ ∀ m, canon m → al ∣ m → a ≤ m → r ≤ m
+
+/-- Executable forms used by the driver oracle. -/
+def downMultiple (a al : Nat) : Nat := a / al * al
+def upMultiple (a al : Nat) : Nat := (a + al - 1) / al * al
+def isPow2Spec (n : Nat) : Bool := (List.range 64).any (fun k => n == 2^k)
+
+/-! ### Ranges -/
+
+/-- The `n` items `s, s+sz, s+2sz, …` in ascending order. -/
+def itemsSpec (sz s : Nat) : Nat → List Nat
+  | 0 => []
+  | n + 1 => s :: itemsSpec sz (s + sz) n
+
+/-- Number of items of an exclusive / inclusive range with aligned bounds. -/
+def lenSpec (incl : Bool) (sz s e : Nat) : Nat :=
+  if incl then (if s ≤ e then (e - s) / sz + 1 else 0) else (if s < e then (e - s) / sz else 0)
+
+/-- Order-sensitive checksum of an item list (used to compare long item sequences on one protocol line). -/
+def listHash (l : List Nat) : Nat := l.foldl (fun h x => (h * 1000003 + x + 1) % 2^64) 0
+
 end X86.Spec
